@@ -72,6 +72,12 @@ CLAIMED.update({
    note="Trusts mc/src/refbuiltins.rs. Results the documentation does not pin are only required not to crash and to name the builtin when they fail.",
    technique="exhaustive enumeration of builtin x arity x argument-kind tuples and law domains against a contract table"),
 })
+CLAIMED.update({
+ "C12": dict(level="model_checking", design="4.12",
+   text="Exhaustive grammar enumeration against a reference renderer written from the statement: every specifier of index x (none | ':' (10 fills incl. the type letters and ':' x 2 alignments | no alignment) x 6 widths x 5 types) = 4084 specifiers between literal text x 13 argument values; every string of <=3 (thorough 4) segments over a 31-symbol alphabet (ASCII/non-ASCII literals, escapes, 26 representative specifiers) x 7 argument lists; 42 malformed strings (no crash); print/println/eprint/eprintln on every <=2-segment string x 7 argument lists with the process's own stdout/stderr redirected into a file: exactly format's text (+newline) must be written and its byte length returned.",
+   note="The unpadded text of non-integer, non-string values is taken from the implementation's own format(\"{}\", v) (the statement does not define it). Radix formats of negative/non-integer values and non-ASCII text in padded specifiers are unspecified.",
+   technique="exhaustive enumeration of format strings over a bounded grammar against a reference renderer"),
+})
 NOT_YET = "check not built yet in this round (machinery under construction; see DESIGN.md section 4 for the planned check)"
 
 props = [json.loads(l) for l in open(os.path.join(HERE, "properties.jsonl"))]
